@@ -76,6 +76,20 @@ def _opname(descr):
     return _OP.split(descr, 1)[0]
 
 
+def _folded_key(prog, b, d, descr):
+    """Key of a site inside a closure as if it stood in the enclosing function: `::{closure}` dropped from the
+    function part, captured operands (`param #1.N`) named by the captured place (`self.from`)."""
+    if "{closure" not in d:
+        return fn_key(d, prog) + "|" + descr
+    ups = b.raw.get("upvars") or []
+
+    def name(m):
+        i = int(m.group(1))
+        return "param " + ups[i][0].replace("__", ".") if i < len(ups) and ups[i][0] else m.group(0)
+    descr = re.sub(r"param #1\.(\d+)\**", name, descr)
+    return re.sub(r"(::\{closure\})+", "", fn_key(d, prog)) + "|" + descr
+
+
 def run(ctx, F):
     prog = F.lib
     S = sym.Sym(prog, inline_depth=2, max_depth=25)
@@ -120,6 +134,13 @@ def run(ctx, F):
                 continue
             if key in reviewed:
                 ctx.reviewed("F1-panic", key, reviewed[key])
+                ctx.count("reviewed")
+                continue
+            fk = _folded_key(prog, b, d, descr)
+            if fk != key and fk in reviewed:
+                # the reviewed operation was moved into a closure of the same function (captured operands are
+                # named by the place they capture): same function, same operation, same operands
+                ctx.reviewed("F1-panic", fk, reviewed[fk] + " (site now inside a closure of the reviewed function)")
                 ctx.count("reviewed")
                 continue
             path = prog.path_to(seen_nostatic, d)
